@@ -130,6 +130,11 @@ def run_forms(s, path, db=0, odb=None, subset=None, prefix='form', reset=True, t
             if db:
                 s.cmd(c, [b'SELECT', str(db).encode()])
         workloads.dump_db(s, c)
+        if a and a[0][:1].upper() == b'X' and c in s.clients:
+            # the consumer-group side of the stream is not part of the dump: read back the pending entries
+            s.cmd(c, [b'XPENDING', b'kx', b'grp'])
+            s.cmd(c, [b'XPENDING', b'kx', b'grp', b'-', b'+', b'100'])
+            s.cmd(c, [b'XREADGROUP', b'GROUP', b'grp', b'audit', b'COUNT', b'10', b'STREAMS', b'kx', b'>'])
         if odb is not None:
             s.cmd(c, [b'SELECT', str(odb).encode()])
             workloads.dump_db(s, c)
